@@ -77,7 +77,19 @@ class Ctx:
 
     def fn(self, crate, suffix):
         l = self.fns(crate, suffix)
-        return l[0] if l else None
+        if l:
+            return l[0]
+        # the name is only a hint: fall back to what the function *does* (renamed / re-signed private functions)
+        role = ROLE_FALLBACK.get(suffix.split('::')[-1])
+        if role is not None:
+            try:
+                f = role(self, crate)
+            except Exception:
+                f = None
+            if f is not None:
+                self.notes.append('anchor `%s` found by role as %s' % (suffix, f.path))
+                return f
+        return None
 
     def fn_by_key(self, key):
         return self.pv.fn_by_key.get(key)
@@ -162,6 +174,39 @@ class Ctx:
             if F.norm_path(p).endswith(suffix):
                 out.extend(l)
         return out
+
+
+def _most_literals(ctx, crate, adt_suffix, pred=None):
+    cnt = {}
+    for adt, sites in ctx.prog.aggregates_norm.items():
+        if adt.endswith(adt_suffix):
+            for fn, node in sites:
+                if fn.key.startswith(crate + '::') and not fn.from_macro and (pred is None or pred(fn, node)):
+                    cnt[fn.key] = cnt.get(fn.key, 0) + 1
+    if not cnt:
+        return None
+    return ctx.pv.fn_by_key.get(max(sorted(cnt), key=lambda k: cnt[k]))
+
+
+def _qualifier_extractor(ctx, crate, module):
+    """the function of `module` that appends GraphqlTypeQualifier values inside a loop (directly)"""
+    for fn in ctx.prog.crates[crate].all_fns():
+        if fn.from_macro or not F.norm_path(fn.path).startswith(module):
+            continue
+        for n in fn.walk(lambda x: x['k'] == 'mcall' and x['method'] == 'push'):
+            if 'GraphqlTypeQualifier' in (n['recv'].get('ty', '') + n['recv'].get('aty', '')) and any(p.get('k') in ('loop', 'for') for p, r, c in fn.ancestors(n)):
+                return fn
+    return None
+
+
+ROLE_FALLBACK = {
+    # the response-type expander: builds the named ExpandedField records
+    'calculate_selection': lambda ctx, crate: _most_literals(ctx, crate, 'codegen::selection::ExpandedField',
+                                                            lambda fn, node: any(x['name'] == 'graphql_name' and x['e'].get('k') != 'path' or
+                                                                                 (x['name'] == 'graphql_name' and 'None' not in x['e'].get('res', {}).get('path', '')) for x in node['fields'])),
+    'from_json_type_inner': lambda ctx, crate: _qualifier_extractor(ctx, crate, 'graphql_client_codegen::schema::json_conversion'),
+    'resolve_field_type': lambda ctx, crate: _qualifier_extractor(ctx, crate, 'graphql_client_codegen::schema::resolve') or _qualifier_extractor(ctx, crate, 'graphql_client_codegen::schema::'),
+}
 
 
 def diverges(e):
